@@ -472,9 +472,11 @@ namespace Pistache::Http::Header
 
     void Date::write(std::ostream& os) const { fullDate_.write(os); }
 
-    void Expect::parseRaw(const char* str, size_t /*len*/)
+    void Expect::parseRaw(const char* str, size_t len)
     {
-        if (std::strcmp(str, "100-continue") == 0)
+        // str is not NUL terminated (the value is followed by CRLF in the buffer)
+        static constexpr size_t ContinueLen = sizeof("100-continue") - 1;
+        if (len == ContinueLen && std::strncmp(str, "100-continue", ContinueLen) == 0)
         {
             expectation_ = Expectation::Continue;
         }
